@@ -182,10 +182,24 @@ func runMulti(c map[string]any, ev map[string]any) error {
 	if n < 1 || n > 4 || k < 1 || k > n {
 		return fmt.Errorf("multi: n=%d k=%d", n, k)
 	}
-	w, err := sim.NewWorld(sim.WorldOpts{Accounts: []sim.Acct{
-		{Login: "adm", Name: "Admin", Password: "ap"},
-		{Login: "x", Name: "X", Password: "xp"},
-	}})
+	near, _ := c["near"].(string)
+	edited, namesake := "x", ""
+	switch near {
+	case "", "none":
+	case "case":
+		edited, namesake = "bob", "Bob"
+	case "prefix":
+		edited, namesake = "bob", "bo"
+	case "suffix":
+		edited, namesake = "bob", "bobby"
+	default:
+		return fmt.Errorf("multi: near %q", near)
+	}
+	accts := []sim.Acct{{Login: "adm", Name: "Admin", Password: "ap"}, {Login: edited, Name: "X", Password: "xp"}}
+	if namesake != "" {
+		accts = append(accts, sim.Acct{Login: namesake, Name: "Namesake", Password: "np"})
+	}
+	w, err := sim.NewWorld(sim.WorldOpts{Accounts: accts})
 	if err != nil {
 		return err
 	}
@@ -193,16 +207,28 @@ func runMulti(c map[string]any, ev map[string]any) error {
 	if err := setAccess(w, "adm", sim.AllAccess()); err != nil {
 		return err
 	}
-	if err := setAccess(w, "x", a0); err != nil {
+	if err := setAccess(w, edited, a0); err != nil {
 		return err
 	}
 	var ss []*sim.Client
 	for i := 0; i < n; i++ {
 		cl := w.Dial("")
-		if rep, err := cl.Login(sim.LoginOpts{Login: "x", Password: "xp", Name: fmt.Sprintf("X%d", i+1)}); err != nil || rep.Err != 0 {
+		if rep, err := cl.Login(sim.LoginOpts{Login: edited, Password: "xp", Name: fmt.Sprintf("X%d", i+1)}); err != nil || rep.Err != 0 {
 			return fmt.Errorf("multi: login x#%d: %v err=%d", i+1, err, rep.Err)
 		}
 		ss = append(ss, cl)
+	}
+	// a protected account whose login is a near variant of the edited one, with its own session
+	var ns *sim.Client
+	ev["bclosed"] = false
+	if namesake != "" {
+		if err := setAccess(w, namesake, sim.AccessBits(23)); err != nil {
+			return err
+		}
+		ns = w.Dial("")
+		if rep, err := ns.Login(sim.LoginOpts{Login: namesake, Password: "np", Name: "Namesake"}); err != nil || rep.Err != 0 {
+			return fmt.Errorf("multi: login namesake: %v err=%d", err, rep.Err)
+		}
 	}
 	adm := w.Dial("")
 	if rep, err := adm.Login(sim.LoginOpts{Login: "adm", Password: "ap", Name: "Admin"}); err != nil || rep.Err != 0 {
@@ -231,10 +257,10 @@ func runMulti(c map[string]any, ev map[string]any) error {
 	var id uint32
 	switch intOf(c["edit"]) {
 	case 353:
-		id = adm.Send(sim.TSetUser, sim.Fld(sim.FUserLogin, sim.Obfuscate([]byte("x"))), sim.Fld(sim.FUserName, []byte("X")),
+		id = adm.Send(sim.TSetUser, sim.Fld(sim.FUserLogin, sim.Obfuscate([]byte(edited))), sim.Fld(sim.FUserName, []byte("X")),
 			sim.Fld(sim.FUserPassword, []byte{0}), sim.Fld(sim.FUserAccess, a1[:]))
 	case 349:
-		id = adm.Send(sim.TUpdateUser, sim.Fld(sim.FData, encSub(sim.Fld(sim.FUserLogin, sim.Obfuscate([]byte("x"))),
+		id = adm.Send(sim.TUpdateUser, sim.Fld(sim.FData, encSub(sim.Fld(sim.FUserLogin, sim.Obfuscate([]byte(edited))),
 			sim.Fld(sim.FUserName, []byte("X")), sim.Fld(sim.FUserPassword, []byte{0}), sim.Fld(sim.FUserAccess, a1[:]))))
 	default:
 		return fmt.Errorf("multi: edit %v", c["edit"])
@@ -249,6 +275,15 @@ func runMulti(c map[string]any, ev map[string]any) error {
 	ev["banned"] = false
 	ev["mem"], ev["disk"] = []int{}, []int{}
 	target := ss[k-1]
+	if ns != nil {
+		if err := ns.Settle(); err != nil {
+			return fmt.Errorf("multi: settle namesake: %w", err)
+		}
+		ns.Drain()
+		if kind == "kick" {
+			target = ns // the disconnect request is aimed at the protected namesake's session
+		}
+	}
 	switch kind {
 	case "kick":
 		fields := []sim.F{sim.Fld(sim.FUserID, sim.U16(target.ID()))}
@@ -267,6 +302,9 @@ func runMulti(c map[string]any, ev map[string]any) error {
 			if cl != target {
 				cl.WaitServerDone(300 * time.Millisecond)
 			}
+		}
+		if ns != nil {
+			ev["bclosed"] = ns.ServerDone()
 		}
 		bl, err := verifexport.NewBanFile(filepath.Join(w.Config, "Banlist.yaml"))
 		if err != nil {
@@ -306,5 +344,100 @@ func runMulti(c map[string]any, ev map[string]any) error {
 		closed = append(closed, cl.ServerDone())
 	}
 	ev["sclosed"] = closed
+	return nil
+}
+
+// runBatch (C06): one Update User (349) request of the requester (access c["acc"]) with several entries, in order:
+// "modself" (its own account gets access entry.set), "renself" (its own account is renamed req -> req2, access
+// entry.set), "delete" (account spare), "create" (new account entry.login with access entry.set).  Recorded: the
+// reply, and for every create entry i the bitmap of that account afterwards in the running account manager (mem) and in
+// a freshly loaded one (disk), empty = no such account.
+func runBatch(c map[string]any, ev map[string]any) error {
+	acc := bitmapOf(c["acc"])
+	entries, _ := c["entries"].([]any)
+	w, err := sim.NewWorld(sim.WorldOpts{Accounts: []sim.Acct{
+		{Login: "req", Name: reqAcctName, Password: "rp"},
+		{Login: "spare", Name: "Spare", Password: "sp"},
+		{Login: "guest", Name: "Guest", Password: ""},
+	}})
+	if err != nil {
+		return err
+	}
+	defer w.Close()
+	if err := setAccess(w, "req", acc); err != nil {
+		return err
+	}
+	for _, l := range []string{"guest", "spare"} {
+		if err := setAccess(w, l, sim.AllAccess()); err != nil {
+			return err
+		}
+	}
+	req := w.Dial("")
+	if rep, err := req.Login(sim.LoginOpts{Login: "req", Password: "rp", Name: reqLoginName}); err != nil || rep.Err != 0 {
+		return fmt.Errorf("batch: login req: %v err=%d", err, rep.Err)
+	}
+	req.Drain()
+	var fields []sim.F
+	type made struct {
+		i     int
+		login string
+	}
+	var creates []made
+	for i, x := range entries {
+		e, _ := x.(map[string]any)
+		kind, _ := e["kind"].(string)
+		login, _ := e["login"].(string)
+		set := bitmapOf(e["set"])
+		switch kind {
+		case "modself":
+			fields = append(fields, sim.Fld(sim.FData, encSub(sim.Fld(sim.FUserLogin, sim.Obfuscate([]byte("req"))),
+				sim.Fld(sim.FUserName, []byte(reqAcctName)), sim.Fld(sim.FUserPassword, []byte{0}), sim.Fld(sim.FUserAccess, set[:]))))
+		case "renself":
+			fields = append(fields, sim.Fld(sim.FData, encSub(sim.Fld(sim.FData, sim.Obfuscate([]byte("req"))), sim.Fld(sim.FUserLogin, sim.Obfuscate([]byte("req2"))),
+				sim.Fld(sim.FUserName, []byte(reqAcctName)), sim.Fld(sim.FUserPassword, []byte{0}), sim.Fld(sim.FUserAccess, set[:]))))
+		case "delete":
+			fields = append(fields, subDelete("spare"))
+		case "create":
+			fields = append(fields, subCreate(login, set))
+			creates = append(creates, made{i + 1, login})
+		default:
+			return fmt.Errorf("batch: entry kind %q", kind)
+		}
+	}
+	id := req.Send(sim.TUpdateUser, fields...)
+	settleErr := req.Settle()
+	reply, etext := "none", []int{}
+	for _, f := range req.Drain() {
+		if f.IsReply == 1 && f.ID == id {
+			reply = "ok"
+			if f.Err != 0 {
+				reply = "err"
+			}
+			if b, ok := f.Get(sim.FError); ok {
+				etext = sim.Ints(b)
+			}
+			break
+		}
+	}
+	if settleErr != nil && reply == "none" {
+		reply = "closed"
+	}
+	ev["reply"], ev["etext"] = reply, etext
+	fresh, err := verifexport.NewYAMLAccountManager(filepath.Join(w.Config, "Users"))
+	if err != nil {
+		return fmt.Errorf("batch: reload accounts: %w", err)
+	}
+	out := []map[string]any{}
+	for _, m := range creates {
+		mem, disk := []int{}, []int{}
+		if a := w.AM.Get(m.login); a != nil {
+			mem = sim.Ints(a.Access[:])
+		}
+		if a := fresh.Get(m.login); a != nil {
+			disk = sim.Ints(a.Access[:])
+		}
+		out = append(out, map[string]any{"i": m.i, "login": m.login, "mem": mem, "disk": disk})
+	}
+	ev["made"] = out
 	return nil
 }
